@@ -50,6 +50,8 @@ DEFAULT_PROFILE = dict(
     reconfig=0.0,                 # probability that the operator changes constraint limits mid-run (environment fault)
     refill=0.15,                  # probability that later events are added to the simulator's queue only after run() returned (run() is then called again)
     aware_start=0.0,              # probability that the simulation start is a pytz-aware instant a few periods before a DST transition of its zone
+    evse_subclass=0.1,            # probability that continuous EVSEs of the world are instances of a user subclass of EVSE (overrides delegate to the base class)
+    zero_demand=0.0,              # per-session probability of a request of 0 / 0.5 Wh / 1 Wh (at or below the library's 'fully charged' threshold)
     event_subclass=0.1,           # probability that the world's plug-in / recompute events are instances of user subclasses of the built-in event types
 )
 
@@ -75,6 +77,9 @@ def profile(**over):
 def _gen_evse(r, kind):
     if kind == "cont":
         return {"type": "EVSE", "max": r.choice([8, 16, 24, 32, 32, 40, r.randint(6, 80), round(r.uniform(6, 80), 2)]), "min": 0}
+    if kind == "cont_neg":
+        # a bidirectional EVSE (public option min_rate < 0): a scheduler may discharge the vehicle
+        return {"type": "EVSE", "max": r.choice([16, 32, 32, 48]), "min": -r.choice([8, 16, 32])}
     if kind == "cont_inf":
         return {"type": "EVSE", "max": None, "min": 0}
     if kind == "dead":
@@ -127,6 +132,7 @@ def gen_world(rs: int, P: dict) -> dict:
         kinds = dict(P["evse_kinds"])
         if sorted_party or party_kind == "uncontrolled":
             kinds.pop("cont_inf", None)
+            kinds.pop("cont_neg", None)
         if sorted_party:
             kinds.pop("dead", None)
         if not kinds:
@@ -139,6 +145,11 @@ def gen_world(rs: int, P: dict) -> dict:
             "voltage": rr_.choice(VOLTAGES) if hetero else v0,
             "phase": (rr_.choice(PHASES3) if ckind == "three" else 0),
         })
+    rsub = sub(rs, "evse_subclass")
+    if P.get("evse_subclass", 0) and rsub.random() < P["evse_subclass"]:
+        for s_ in stations:
+            if s_["evse"]["type"] == "EVSE" and rsub.random() < 0.6:
+                s_["evse"]["sub"] = True
     reg_order = list(range(n_st))
     if r.random() < 0.5:
         r.shuffle(reg_order)
@@ -351,6 +362,8 @@ def _mk_session(rs, sid, station, a, d, stations, period, P):
     deliverable = mx * v / 1000.0 * (period / 60.0) * (d - a)
     energy = max(1e-3 * 5, deliverable * rb.uniform(*P["demand"]))
     energy = round(energy, 4)
+    if P.get("zero_demand", 0) and sub(rs, "zero_demand", sid).random() < P["zero_demand"]:
+        energy = sub(rs, "zero_demand2", sid).choice([0.0, 5e-4, 1e-3])
     kind = wchoice(rb, P["battery"])
     max_power = round(rb.uniform(0.4, 1.6) * mx * v / 1000.0, 3)
     free = energy * rb.choice([1.0, 1.0, rb.uniform(0.4, 1.0), rb.uniform(1.0, 3.0)])
